@@ -1153,9 +1153,9 @@ def build(unit_path, prelude_paths, canary=False):
                 names = part["names"]
                 for it in items:
                     if it.kind == "const" and (it.name in names or names == ["*"]) and ("const", it.name) not in seen:
-                        seen.add(("const", it.name))
                         if names == ["*"] and re.search(r"&str|char|\[", it.text):
-                            continue
+                            continue     # not emitted, so not `seen`: a later `#! consts FILE NAME` can still ask for it by name
+                        seen.add(("const", it.name))
                         t = rule_R0(it.text, stats)
                         t = re.sub(r"^\s*(pub\s+)?", "pub ", t, count=1)
                         if re.match(r"pub\s+static\b", t):
